@@ -7,7 +7,7 @@ CONSTANTS
   Uris = {"u1"}
   MaxText = 2
   Dump = FALSE
-INVARIANTS Valid RefusalsAreStutters Total RiwIdempotent FrameHolds L2MovesRefine
+INVARIANTS Valid RefusalsAreStutters Total RiwIdempotent FrameHolds L2MovesRefine L2CloneRefines
 PROPERTY StableIds
 CONSTRAINT TextBound
 CHECK_DEADLOCK FALSE
